@@ -18,8 +18,9 @@ vars == <<ctx, solo, vcount, hist>>
 Schema ==
   << DInt("i", "7"), DStrList("l", <<"a">>),
      DSec("m", {"MULTI"}, << DInt("x", "5"), DStrList("ml", <<"d">>),
-                             DSec("n", {"MULTI"}, << DInt("y", "1") >>) >>),
-     DSec("t", {"MULTI","TITLE"}, << DInt("x", "5") >>),
+                             DSec("n", {"MULTI"}, << DInt("y", "1"), DStr("ns", "deep") >>),
+                             DStr("ms", "dflt"), DFloat("mf", "2.25"), DBool("mb", "true") >>),
+     DSec("t", {"MULTI","TITLE"}, << DInt("x", "5"), DStr("ts", "tdef") >>),
      DSec("kv", {"KEYSTRVAL"}, <<>>) >>
 
 Fresh == MkSec(Null, InitOpts(Schema))
@@ -28,8 +29,10 @@ T(s) == TkStr(s)
 Texts ==
   [newm  |-> <<T("m"), TkP("{"), T("x"), TkP("="), T("1"), T("n"), TkP("{"), TkP("}"), TkP("}")>>,
    key   |-> <<T("kv"), TkP("{"), T("k"), TkP("="), T("v"), TkP("}")>>,
-   seti  |-> <<T("i"), TkP("="), T("3"), T("l"), TkP("+="), T("b")>>]
-TextNames == {"newm", "key", "seti"}
+   seti  |-> <<T("i"), TkP("="), T("3"), T("l"), TkP("+="), T("b")>>,
+   (* an undeclared key outside the free-form section: must stay an error whatever happened before *)
+   stray |-> <<T("m"), TkP("{"), T("zz"), TkP("="), T("1"), TkP("}")>>]
+TextNames == {"newm", "key", "seti", "stray"}
 
 M1 == <<[oi |-> 3, ii |-> 1]>>
 M2 == <<[oi |-> 3, ii |-> 2]>>
